@@ -444,6 +444,7 @@ func c16Flow(c *Ctx) {
 		}
 	}
 	nPub := 0
+	methodCallbacks := map[*ssa.Function]bool{} // walk callbacks given as method values: checked as callbacks, not as helpers
 	for _, fn := range llmFuncs(L) {
 		for _, cs := range callsIn(fn) {
 			callee := cs.common.StaticCallee()
@@ -507,10 +508,51 @@ func c16Flow(c *Ctx) {
 					}
 				}
 			}
+			// the callback may be a method value (copier.visit): what the closure would capture are then the fields of the
+			// bound receiver, a struct filled in by the function that starts the walk
+			recvOff := 0
+			var hostMC *ssa.MakeClosure
+			recvSubst := func(ts []string) []string { return ts }
+			if cb.Parent() == nil && cb != install && cb.Signature.Recv() != nil {
+				if mc, fields := boundMethodValue(L, llmFuncs(L), cb); mc != nil {
+					hostMC, recvOff = mc, 1
+					methodCallbacks[cb] = true
+					c.seen(fnName(mc.Parent()))
+					s5 := newSym(L, map[string]bool{})
+					s5.stack[install] = true
+					type rep3 struct {
+						re   *regexp.Regexp
+						vals []string
+					}
+					var reps []rep3
+					for key, val := range fields {
+						reps = append(reps, rep3{regexp.MustCompile(`field:` + regexp.QuoteMeta(key) + `\(param:` + regexp.QuoteMeta(cb.Params[0].Name()) + `\)`), s5.eval(val)})
+					}
+					recvSubst = func(ts []string) []string {
+						for _, r := range reps {
+							var next []string
+							for _, t := range ts {
+								if !r.re.MatchString(t) {
+									next = append(next, t)
+									continue
+								}
+								for _, v := range r.vals {
+									next = append(next, r.re.ReplaceAllLiteralString(t, v))
+								}
+							}
+							ts = uniq(next)
+						}
+						return ts
+					}
+				}
+			}
 			// the function that contains the walk may itself be a helper of Install (installTree(fs, src, dst)): its
 			// parameters are rewritten into Install's context in the same way
 			lift := func(ts []string) []string { return ts }
 			cbRoot := cb
+			if hostMC != nil {
+				cbRoot = hostMC.Parent()
+			}
 			for cbRoot.Parent() != nil {
 				cbRoot = cbRoot.Parent()
 			}
@@ -557,10 +599,10 @@ func c16Flow(c *Ctx) {
 				}
 			}
 			inner := subst
-			subst = func(ts []string) []string { return lift(inner(ts)) }
+			subst = func(ts []string) []string { return lift(recvSubst(inner(ts))) }
 			walked := ""
-			if len(cb.Params) > 0 && cb.Parent() != nil {
-				walked = "param:" + cb.Params[0].Name()
+			if len(cb.Params) > recvOff && (cb.Parent() != nil || hostMC != nil) {
+				walked = "param:" + cb.Params[recvOff].Name()
 			}
 			srcDir := "agent.SkillsSrcDir(" + ag + ")"
 			rel := "Rel#0(" + srcDir + ", " + walked + ")"
@@ -594,9 +636,13 @@ func c16Flow(c *Ctx) {
 
 			// the callback is the WalkDir callback over (SkillsFS, SkillsSrcDir)
 			okWalk := false
-			if cb.Parent() != nil {
-				for _, w := range findCalls(cb.Parent(), "io/fs.WalkDir") {
-					if mc, ok := resolve(w.arg(2)).(*ssa.MakeClosure); ok && mc.Fn == cb {
+			walkHost := cb.Parent()
+			if hostMC != nil {
+				walkHost = hostMC.Parent()
+			}
+			if walkHost != nil {
+				for _, w := range findCalls(walkHost, "io/fs.WalkDir") {
+					if mc, ok := resolve(w.arg(2)).(*ssa.MakeClosure); ok && (mc.Fn == cb || mc == hostMC) {
 						s2 := newSym(L, map[string]bool{})
 						a0, a1 := lift(s2.eval(w.arg(0))), lift(s2.eval(w.arg(1)))
 						if len(a0) == 1 && len(a1) == 1 && normTerm(a0[0]) == "agent.SkillsFS("+ag+")" && normTerm(a1[0]) == srcDir {
@@ -617,7 +663,7 @@ func c16Flow(c *Ctx) {
 					if !ok || !call.Common().IsInvoke() || call.Common().Method.Name() != "IsDir" {
 						continue
 					}
-					if len(cb.Params) < 2 || resolve(call.Common().Value) != ssa.Value(cb.Params[1]) {
+					if len(cb.Params) < 2+recvOff || resolve(call.Common().Value) != ssa.Value(cb.Params[1+recvOff]) {
 						continue
 					}
 					for _, r := range *call.Referrers() {
@@ -657,7 +703,7 @@ func c16Flow(c *Ctx) {
 	c.floor("C16.3", "call sites of the publishing function", nPub, 1)
 	// a helper between the callback and the publishing function reports success only after the publishing call succeeded
 	for _, fn := range llmFuncs(L) {
-		if fn.Parent() != nil || fn == install || pubFns[fn] {
+		if fn.Parent() != nil || fn == install || pubFns[fn] || methodCallbacks[fn] {
 			continue
 		}
 		for _, cs := range callsIn(fn) {
@@ -826,4 +872,58 @@ func c16Flow(c *Ctx) {
 		c.undecided("C16.4", "AgentCmd.Run", "method (*AgentCmd[T]).Run not found")
 	}
 	sort.Strings(c.Notes)
+}
+
+// boundMethodValue: the one place in fns where method m is turned into a function value (recv.m), and the values stored
+// into the fields of the bound receiver (a local struct filled in once per field, before the method value is taken), keyed
+// like fieldKey.
+func boundMethodValue(L *Loaded, fns []*ssa.Function, m *ssa.Function) (*ssa.MakeClosure, map[string]ssa.Value) {
+	var found *ssa.MakeClosure
+	n := 0
+	for _, g := range fns {
+		for _, b := range g.Blocks {
+			for _, in := range b.Instrs {
+				mc, ok := in.(*ssa.MakeClosure)
+				if !ok {
+					continue
+				}
+				bf, ok := mc.Fn.(*ssa.Function)
+				if !ok || !strings.HasPrefix(bf.Synthetic, "bound method wrapper") || bf.Object() == nil || bf.Object() != m.Object() {
+					continue
+				}
+				n++
+				found = mc
+			}
+		}
+	}
+	if n != 1 || len(found.Bindings) != 1 {
+		return nil, nil
+	}
+	v := found.Bindings[0]
+	if u, ok := v.(*ssa.UnOp); ok && u.Op == token.MUL {
+		v = u.X
+	}
+	al, ok := v.(*ssa.Alloc)
+	if !ok {
+		return nil, nil
+	}
+	fields := map[string]ssa.Value{}
+	for _, b := range al.Parent().Blocks {
+		for _, in := range b.Instrs {
+			st, ok := in.(*ssa.Store)
+			if !ok {
+				continue
+			}
+			fa, ok := st.Addr.(*ssa.FieldAddr)
+			if !ok || fa.X != ssa.Value(al) {
+				continue
+			}
+			k := fieldKey(fa)
+			if _, dup := fields[k]; dup || !instrDominates(st, found) {
+				return nil, nil // written twice or after the method value was taken: not a plain bundle of values
+			}
+			fields[k] = st.Val
+		}
+	}
+	return found, fields
 }
